@@ -664,7 +664,21 @@ func (e *Engine) slice(ci *cInstr, fr *frame) Val {
 	case SStr:
 		length, capacity = len(xv), len(xv)
 	case SAtom, SCat:
-		e.unsupported("slice of formatted string")
+		// text of formatted symbolic numbers: only the bounds check is modelled, the result is opaque
+		n := e.symLen(xv).(Sc)
+		ti := tinfo{w: 64, signed: true}
+		lo, hi := isc(0), n
+		if ci.ops[1].kind != opNone {
+			lo = e.get(fr, &ci.ops[1]).(Sc)
+		}
+		if ci.ops[2].kind != opNone {
+			hi = e.get(fr, &ci.ops[2]).(Sc)
+		}
+		ok := e.andSc(e.intOp(token.GEQ, ti, ti, lo, isc(0)), e.andSc(e.intOp(token.LEQ, ti, ti, lo, hi), e.intOp(token.LEQ, ti, ti, hi, n)))
+		if !e.decide(ok) {
+			panic(&goPanic{msg: "runtime error: slice bounds out of range (formatted string)"})
+		}
+		return SAtom{fn: "substr", arg: e.fresh("substr", 64).t}
 	case Sl:
 		length, capacity = len(xv.a), cap(xv.a)
 	case *Val:
@@ -873,7 +887,7 @@ func (e *Engine) builtin(ci *cInstr, bi *ssa.Builtin, c *ssa.CallCommon, args []
 				return isc(int64(len(st)))
 			}
 		case SAtom, SCat:
-			e.unsupported("len of formatted symbolic string")
+			return e.symLen(x)
 		}
 		e.unsupported("len of %T", args[0])
 	case "cap":
@@ -974,4 +988,30 @@ func (e *Engine) builtin(ci *cInstr, bi *ssa.Builtin, c *ssa.CallCommon, args []
 	}
 	e.unsupported("builtin %s", bi.Name())
 	return nil
+}
+
+// symLen is the length of a string containing formatted symbolic numbers: each atom contributes a
+// fresh length variable constrained to the range its formatter can produce.
+func (e *Engine) symLen(v Val) Val {
+	total := Sc{w: 64}
+	ti := tinfo{w: 64, signed: true}
+	for _, p := range strParts(v) {
+		switch x := p.(type) {
+		case SAtom:
+			l, ok := e.atomLen[x.arg]
+			if !ok {
+				l = e.fresh("alen", 64)
+				maxLen := uint64(20) // strconv.Itoa of an int64
+				if x.fn == "ftoa" {
+					maxLen = 24
+				}
+				e.addPC(e.tt.And(e.tt.App("bvuge", 0, l.t, e.tt.Const(64, 1)), e.tt.App("bvule", 0, l.t, e.tt.Const(64, maxLen))))
+				e.atomLen[x.arg] = l
+			}
+			total = e.intOp(token.ADD, ti, ti, total, l)
+		default:
+			total = e.intOp(token.ADD, ti, ti, total, isc(int64(len(bytesOf(p)))))
+		}
+	}
+	return total
 }
